@@ -448,6 +448,13 @@ func c15From(r *Run, su *c15Setup, state string, pre []Action, base []byte, obse
 			keys[c][string(op.Key)] = true
 		}
 		for c, ks := range keys {
+			if strings.HasPrefix(c, "UNKNOWN(") {
+				// a raw key under none of the prefixes this check knows: the store layout differs from the
+				// one the classification was written for. Not a verdict -- the write set is then judged by
+				// (3) alone: typed diff == named entry and raw diff size == typed diff size.
+				r.Truncate("C15: raw store keys outside the known key prefixes (store layout changed?); write classes not judged, typed/raw diff still is")
+				continue
+			}
 			if max, ok := allowed[c]; !ok || len(ks) > max {
 				r.Violate(fmt.Sprintf("C15 %s writes outside its documented state: %s", kind, c),
 					fmt.Sprintf("[%s] %s (%s): wrote %d key(s) of class %s; documented classes %v", state, a.Desc, o.Class(), len(ks), c, allowed), rp(fmt.Sprint(allowed), c))
